@@ -238,6 +238,8 @@ def write_replay(prop, sc, sig, digest, detail, tag='min'):
     path = os.path.join(OUT, 'replays', '%s-%s.json' % (prop, h))
     doc = {'property': prop, 'signature': sig, 'digest': digest,
            'detail': jsonable(detail), 'scenario': sc}
+    if sig.startswith('non-termination'):
+        doc['wall_cap_s'] = 5.0
     if isinstance(sc.get('inst'), dict):
         import instances
         doc['instance_text_for_readers'] = instances.render(sc['inst'])
@@ -253,6 +255,9 @@ def replay(prop, path):
     with open(path) as f:
         doc = json.load(f)
     sc = doc['scenario']
+    if doc.get('wall_cap_s'):
+        import execute
+        execute.WALL_CAP = float(doc['wall_cap_s'])
     tr, v = spec.evaluate(sc)
     sigs = [signature(x) for x in v['violations']]
     rep = doc['signature'] in sigs
@@ -351,8 +356,14 @@ def check(prop, tier, verif_seed, n=None, workers=None, out=sys.stdout):
             continue
         n_new += 1
         i, j, viol, sc = hits[0]
-        small, spent = minimise(spec, sc, sig,
-                                budget=spec.min_budget.get(tier, 300))
+        budget = spec.min_budget.get(tier, 300)
+        if sig.startswith('non-termination'):
+            # every confirming run costs a full wall cap: shorten both
+            import execute
+            execute.WALL_CAP = min(execute.WALL_CAP, 5.0)
+            os.environ['VERIF_WALL_CAP'] = str(execute.WALL_CAP)
+            budget = 25
+        small, spent = minimise(spec, sc, sig, budget=budget)
         got = has_signature(spec, small, sig)
         if got is None:
             small = sc
